@@ -17,6 +17,32 @@ theorem C13_isotropic (az bw θ d : ℝ) (hθ : -π ≤ θ ∧ θ ≤ π) (haz :
     rw [abs_le]
     constructor <;> nlinarith [hθ.1, hθ.2, haz.1, haz.2]
 
+/-- ... and so does the triangular search area once its bandwidth limits nothing: half the
+bandwidth at least the pair's distance (e.g. any bandwidth of twice the largest distance or more).
+A bandwidth that is silently reduced below that - clipped to the largest distance, say - loses the
+pairs whose offset from the azimuth line exceeds half of it (`C13_triangle_band_limits`). -/
+theorem C13_isotropic_triangle (az bw θ d : ℝ) (hθ : -π ≤ θ ∧ θ ≤ π) (haz : -180 ≤ az ∧ az ≤ 180)
+    (hd : 0 ≤ d) (hbw : d ≤ bw / 2) :
+    Gen.triangleMask az 180 bw θ d := by
+  rw [triangleMask_eq]
+  refine ⟨(compassMask_eq az 180 bw θ d).mp (C13_isotropic az bw θ d hθ haz), ?_⟩
+  rw [abs_mul, abs_of_nonneg hd]
+  calc d * abs (Real.sin (abs (θ + az * π / 180))) ≤ d * 1 :=
+        mul_le_mul_of_nonneg_left (Real.abs_sin_le_one _) hd
+    _ ≤ bw / 2 := by linarith
+
+/-- the band criterion is a real limit below that: a pair at right angles to the azimuth line whose
+distance exceeds half the bandwidth is not selected, whatever the tolerance -/
+theorem C13_triangle_band_limits (tol bw d : ℝ) (hd : bw / 2 < d) :
+    ¬ Gen.triangleMask 0 tol bw (π / 2) d := by
+  rw [triangleMask_eq]
+  intro h
+  have h2 := h.2
+  have hpos : 0 < π / 2 := by positivity
+  simp only [zero_mul, zero_div, add_zero, abs_of_pos hpos, Real.sin_pi_div_two, mul_one] at h2
+  have : d ≤ |d| := le_abs_self d
+  linarith
+
 /-- azimuths that differ by 180° select the same pairs (angle criterion and band criterion) -/
 theorem C13_opposite (az θ d : ℝ) :
     distPi (θ + (az + 180) * π / 180) = distPi (θ + az * π / 180) ∧
